@@ -20,7 +20,20 @@ pub const P: i128 = 46337;
 pub const BASES: [(i128, i128, i128); 4] = [(4, 3, 5), (12, 5, 13), (40, 9, 41), (15, 8, 17)];
 
 #[derive(Clone, Copy, PartialEq, Eq, Debug, Hash)]
-pub enum Unit { One, Pi, Phi(u8) }
+pub enum Unit { One, Pi, Phi(u8), /// a rational linear combination of Pi and the Phi(b), interned in MIXES
+    Mix(u16) }
+/// coefficients of (Pi, Phi(0), .., Phi(3)), each a normalised rational (n, d)
+pub type Combo = [(i128, i128); 5];
+thread_local! { static MIXES: std::cell::RefCell<Vec<Combo>> = std::cell::RefCell::new(Vec::new()); }
+fn intern(c: Combo) -> u16 {
+    MIXES.with(|m| {
+        let mut m = m.borrow_mut();
+        if let Some(i) = m.iter().position(|x| *x == c) { return i as u16; }
+        m.push(c);
+        (m.len() - 1) as u16
+    })
+}
+fn combo_of(i: u16) -> Combo { MIXES.with(|m| m.borrow()[i as usize]) }
 
 #[derive(Clone, Copy)]
 pub struct Q { pub n: i128, pub d: i128, pub u: Unit }
@@ -57,6 +70,25 @@ impl Q {
     /// the angle k * Phi(b)
     pub fn angle(b: u8, k: i64) -> Q { Q::int(k).with(Unit::Phi(b)) }
     pub fn pi_mul(n: i64, d: i64) -> Q { Q::frac(n, d).with(Unit::Pi) }
+    /// an angle value as coefficients of (Pi, Phi(0..3)); None for plain numbers
+    pub fn combo(self) -> Option<Combo> {
+        let mut c: Combo = [(0, 1); 5];
+        match self.u {
+            Unit::One => { if self.n == 0 { return Some(c); } return None; }
+            Unit::Pi => c[0] = (self.n, self.d),
+            Unit::Phi(b) => c[1 + b as usize] = (self.n, self.d),
+            Unit::Mix(i) => { let base = combo_of(i); for k in 0..5 { let q = Q::new(base[k].0, base[k].1) * Q::new(self.n, self.d); c[k] = (q.n, q.d); } }
+        }
+        Some(c)
+    }
+    fn from_combo(c: Combo) -> Q {
+        let nz: Vec<usize> = (0..5).filter(|k| c[*k].0 != 0).collect();
+        match nz.len() {
+            0 => Q::int(0),
+            1 => { let k = nz[0]; Q { n: c[k].0, d: c[k].1, u: if k == 0 { Unit::Pi } else { Unit::Phi((k - 1) as u8) } } }
+            _ => Q { n: 1, d: 1, u: Unit::Mix(intern(c)) },
+        }
+    }
     pub fn is_plain(self) -> bool { self.u == Unit::One }
     pub fn is_int(self) -> bool { self.u == Unit::One && self.d == 1 }
     pub fn coef(self) -> Q { Q { u: Unit::One, ..self } }
@@ -66,6 +98,12 @@ impl Q {
             Unit::One => c,
             Unit::Pi => c * std::f64::consts::PI,
             Unit::Phi(b) => { let (co, si, _) = BASES[b as usize]; c * (si as f64).atan2(co as f64) }
+            Unit::Mix(_) => {
+                let k = self.combo().unwrap();
+                let mut a = k[0].0 as f64 / k[0].1 as f64 * std::f64::consts::PI;
+                for b in 0..4 { let (co, si, _) = BASES[b]; a += k[1 + b].0 as f64 / k[1 + b].1 as f64 * (si as f64).atan2(co as f64); }
+                a
+            }
         }
     }
     /// residue of a plain rational in the prime field Z_P (None if the denominator vanishes mod P)
@@ -98,6 +136,19 @@ impl Q {
                 let q = (self.n * (2 / self.d)).rem_euclid(4);
                 match q { 0 => (Q::int(1), Q::int(0)), 1 => (Q::int(0), Q::int(1)), 2 => (Q::int(-1), Q::int(0)), _ => (Q::int(0), Q::int(-1)) }
             }
+            Unit::Mix(_) => {
+                // rotate by each component in turn
+                let k = self.combo().unwrap();
+                let (mut co, mut si) = Q { n: k[0].0, d: k[0].1, u: Unit::Pi }.cos_sin();
+                for b in 0..4 {
+                    if k[1 + b].0 == 0 { continue; }
+                    let (c2, s2) = Q { n: k[1 + b].0, d: k[1 + b].1, u: Unit::Phi(b as u8) }.cos_sin();
+                    let nc = co * c2 - si * s2;
+                    let ns = si * c2 + co * s2;
+                    co = nc; si = ns;
+                }
+                (co, si)
+            }
             _ => inconclusive("sin/cos of an unregistered angle"),
         }
     }
@@ -123,7 +174,7 @@ fn isqrt(v: i128) -> i128 {
 
 impl fmt::Debug for Q {
     fn fmt(&self, f: &mut fmt::Formatter) -> fmt::Result {
-        let u = match self.u { Unit::One => String::new(), Unit::Pi => "*pi".into(), Unit::Phi(b) => format!("*phi{}", b) };
+        let u = match self.u { Unit::One => String::new(), Unit::Pi => "*pi".into(), Unit::Phi(b) => format!("*phi{}", b), Unit::Mix(i) => format!("*mix{}", i) };
         if self.d == 1 { write!(f, "{}{}", self.n, u) } else { write!(f, "{}/{}{}", self.n, self.d, u) }
     }
 }
@@ -149,7 +200,17 @@ impl Add for Q {
     fn add(self, o: Q) -> Q {
         if self.n == 0 { return o; }
         if o.n == 0 { return self; }
-        if self.u != o.u { inconclusive("sum of different units") }
+        if self.u != o.u {
+            // two angles in different units: a linear combination
+            match (self.combo(), o.combo()) {
+                (Some(a), Some(b)) => {
+                    let mut c: Combo = [(0, 1); 5];
+                    for k in 0..5 { let q = Q::new(a[k].0, a[k].1) + Q::new(b[k].0, b[k].1); c[k] = (q.n, q.d); }
+                    return Q::from_combo(c);
+                }
+                _ => inconclusive("sum of a number and an angle"),
+            }
+        }
         let g = gcd(self.d, o.d);
         let (da, db) = (self.d / g, o.d / g);
         Q::new(add(mul(self.n, db), mul(o.n, da)), mul(self.d, db)).with(self.u)
@@ -307,6 +368,13 @@ impl num_traits::real::Real for Q {
                 if a.approx() > std::f64::consts::PI || k > 12 { break; }
                 if a.cos_sin().0 == self { return a; }
                 k += 1;
+            }
+        }
+        for b in 0..BASES.len() {
+            for k in 1..=12 {
+                let a = Q::angle(b as u8, k);
+                if a.approx() > std::f64::consts::PI { break; }
+                if a.cos_sin().0 == -self { return Q::pi_mul(1, 1) - a; }
             }
         }
         unsup("acos of an unregistered cosine")
